@@ -9,8 +9,20 @@ for d in /verif/seeded/*/; do
   pid=$(python3 -c "import json;print(json.load(open('$d/meta.json')).get('property','${id:0:3}'))" 2>/dev/null || echo ${id:0:3})
   if ! git -C /repo apply $d/patch.diff 2>/dev/null; then echo "$id $pid PATCH-DOES-NOT-APPLY"; continue; fi
   out=$(cd /verif && NSTD_EVIDENCE_DIR=/var/tmp/nstd-verif-scratch-evidence ./check $pid --tier $TIER 2>&1); rc=$?
+  if [ $rc -eq 0 ] && [ "$TIER" = quick ] && grep -q "def run_thorough" /verif/engine/props/$(echo $pid | tr A-Z a-z).py; then
+    # rules that run in the thorough tier only (sibling comparisons): engine call without the self-test
+    out=$(cd /verif && NSTD_EVIDENCE_DIR=/var/tmp/nstd-verif-scratch-evidence python3 -c "
+import sys; sys.path.insert(0,'/verif')
+from engine import facts, report
+import importlib
+mod = importlib.import_module('engine.props.$(echo $pid | tr A-Z a-z)')
+prog = facts.load_program(); chk = report.Check('$pid', 'thorough')
+mod.run(prog, chk); mod.run_thorough(prog, chk)
+sys.exit(chk.finish())" 2>&1); rc=$?
+    [ $rc -eq 1 ] && out=$(echo "$out" | sed 's/^  \(C[0-9]*\.\)/  (thorough) \1/')
+  fi
   git -C /repo checkout -- .
-  rule=$(echo "$out" | grep -E "^  C[0-9]+\." | head -1 | cut -c3-60)
+  rule=$(echo "$out" | grep -E "^  (\(thorough\) )?C[0-9]+\." | head -1 | cut -c3-70)
   case $rc in 1) echo "$id $pid DETECTED  $rule"; echo "$id $pid detected $rule" >> $IDX;; 0) echo "$id $pid MISSED"; echo "$id $pid blind-spot" >> $IDX;; *) echo "$id $pid BROKEN(rc=$rc) $(echo "$out" | grep ANALYSIS | head -1)"; echo "$id $pid blind-spot" >> $IDX;; esac
 done
 python3 - <<'PY'
